@@ -87,6 +87,7 @@ BatchBad(kind, in, out) ==
 ----------------------------------------------------------------------------
 (* record classes for the conformance harness (MC_Reporters) *)
 IdPat == {"zero", "one", "7f", "80", "ff", "mix"}
-StrClass == {"ascii", "empty", "utf8", "long", "quote"}
+\* "numeric": text that looks like a number or a boolean ("007", "1e3", "true", ...) and must stay text
+StrClass == {"ascii", "empty", "utf8", "long", "quote", "numeric"}
 DurClass == {"zero", "sub", "ms", "big"}
 =============================================================================
